@@ -38,7 +38,7 @@ def py_round(mode, num, den):
 def s2s_contract(mode, S, Ei, D, Eo, first=1):
     def gen(m, fi, tr):
         k = Eo - Ei
-        w = max(S.bits, D.bits + max(k, 0)) + 8
+        w = max(S.bits + max(-k, 0), D.bits + max(k, 0)) + 8
         src = wval(arg_rep(tr, fi, first), S, w)
         ret = wval('$RET', D, w)
         if k <= 0:
@@ -76,7 +76,7 @@ def plan(tier):
     src = [KERNEL_HEAD]
     jobs = []
     kname = 'C09'
-    inst = [('i16', -8, 'i8', 0), ('i32', -16, 'i16', -4), ('u16', -4, 'u8', 0), ('i8', -4, 'i8', -1)]
+    inst = [('i16', -8, 'i8', 0), ('i32', -16, 'i16', -4), ('u16', -4, 'u8', 0), ('i8', -4, 'i8', -1)]      # convert<rounding tag> to a FINER or equal scaled_integer does not compile (no call operator / ambiguous): 'no digits lost' has no instance to verify
     if thorough:
         inst += [('i32', -20, 'i16', 0), ('u32', -16, 'u32', 0), ('i32', -1, 'i32', 0)]
     P = (r'^cnl::custom_operator<cnl::_impl::convert_op, cnl::op_value<cnl::_impl::wrapper<[a-z_0-9 ]+, cnl::power<-?\d+, 2> >, cnl::_impl::native_tag>, '
